@@ -1,7 +1,8 @@
 """C08 -- the concurrent tree walk visits every selected node exactly once and then stops.
 (M) JobSync.tla: the quota Pool (Add reserves min(n, free), Done, Wait) and the
     Lifecycle (strict errors kill, steps) -- every sequence of 5 calls replayed on the
-    real types.  FsLoop.tla: one action per atomic step of producers, the two bounded channels,
+    real types; PoolProof.tla proves the Pool invariant with TLAPS for ANY quota and any
+    number of calls (24 obligations).  FsLoop.tla: one action per atomic step of producers, the two bounded channels,
     polling consumers and the goroutine announcing completion; TLC checks
     AtMostOnce, NoLoss, MaxConcurrency, WaitAfterLastCallback, ErrorRecorded and
     (under fairness) termination for several tree shapes x 1-3 consumers x
@@ -15,8 +16,23 @@
 (T) free-running real loops over random trees (filters, failing callbacks, 0..NumCPU
     consumers/producers, a 1500-file directory > channel capacity, GOMAXPROCS
     1/2/4/N, schedule noise at the hook sites) are validated by Trace_FsLoop.tla."""
-import json
+import json, os, shutil, subprocess, tempfile
 import vlib
+
+
+def tlaps(ctx, text, name):
+    """run tlapm on a scratch copy of PoolProof.tla; returns True iff every obligation is proved"""
+    d = tempfile.mkdtemp(prefix='tlaps_', dir=ctx.scratch)
+    with open(os.path.join(d, 'PoolProof.tla'), 'w') as f:
+        f.write(text)
+    p = subprocess.run(['timeout', '600', 'tlapm', '--threads', '8', 'PoolProof.tla'], cwd=d, stdout=subprocess.PIPE, stderr=subprocess.STDOUT, text=True)
+    out = p.stdout
+    shutil.rmtree(d, ignore_errors=True)
+    if 'obligations proved' in out and 'failed' not in out:
+        return True
+    if 'failed' in out or 'obligation' in out:
+        return False
+    raise vlib.Infra('tlapm run "%s" gave no verdict: %s' % (name, out[-1500:]))
 
 MANIFEST = dict(
     technique='TLA+ model of the fsloop producer/consumer/closer handshake checked by TLC (safety + liveness, regression variant); its counterexample schedule forced on the real goroutines through build-tag hooks and a gated source; free-running loops validated by a TLA+ trace spec',
@@ -56,6 +72,14 @@ def run(ctx):
         ctx.cov['replay'].append(dict(what='JobSync call sequences strict=%s' % strict, model_cases=tot, executed=mj['executed'], failures=mj['failures_by_key']))
         ctx.cov['evaluations'] += mj['executed']
         vlib.report_case_failures(ctx, mj, 'Pool / Lifecycle call sequences')
+    # ---- the Pool for ANY quota and any number of calls: a TLAPS proof (PoolProof.tla); self-test: an Add without the cap
+    proof = open(os.path.join(vlib.SPEC, 'loop', 'PoolProof.tla')).read()
+    if not tlaps(ctx, proof, 'PoolProof'):
+        raise vlib.Infra('the TLAPS proof of PoolProof.tla no longer goes through')
+    uncapped = proof.replace("counter' = counter + Min(n, Max - counter) /\\ last' = Min(n, Max - counter)", "counter' = counter + n /\\ last' = n")
+    if uncapped == proof or tlaps(ctx, uncapped, 'PoolProof without the cap'):
+        raise vlib.Infra('spec self-test failed: the proof goes through for an Add that ignores the quota')
+    ctx.cov['replay'].append(dict(what='TLAPS: Pool invariant (0 <= reserved <= Max, Add bounded) proved for any Max and any number of calls; the proof fails for an Add without the cap'))
     # ---- (R) the counterexample schedule on the real goroutines
     m = ctx.vh(['loopscript'])
     ctx.cov['replay'].append(dict(what='property-directed schedule on the real loop', executed=m['executed'], failures=m['failures_by_key']))
